@@ -297,11 +297,16 @@ class CHECK(Check):
             # the returned node rotates through kinds that container code may take for "nothing" (empty tuple, 0, '', NULL)
             marker = (A.Identifier('__marker__'), A.Tuple(items=[]), A.Constant(0), A.Constant(''), A.NullConstant())[k % 5]
             cnt = [0]
+            below = set()
+            later = []
 
             def cb2(node, **kw):
                 cnt[0] += 1
                 if cnt[0] == k + 1:
+                    below.update(id(x) for x, _ in reflect.walk(node, want=lambda o: isinstance(o, ASTNode)) if x is not node)
                     return marker
+                if cnt[0] > k + 1:
+                    later.append(node)
                 return None
 
             try:
@@ -310,6 +315,31 @@ class CHECK(Check):
                 res.violation(f'replace-crash|{slot(root, p)}|{exc_sig(e)}', f'{text!r}: replacing node at {reflect.path_str(p)} raised {e!r}')
                 continue
             res.count('replacements')
+            if any(id(x) in below for x in later):
+                res.violation(f'walks-below-a-replaced-node|{slot(root, p)}', f'{text!r}: after a node was returned for {reflect.path_str(p)} the visitor was still called for nodes of the replaced sub-tree')
+            if below:
+                # the visitor hands back the very node it was given ("this sub-tree is final"): nothing changes and nothing below it is offered
+                tree2 = copy.deepcopy(root)
+                cnt2, below2, later2 = [0], set(), []
+
+                def cb3(node, **kw):
+                    cnt2[0] += 1
+                    if cnt2[0] == k + 1:
+                        below2.update(id(x) for x, _ in reflect.walk(node, want=lambda o: isinstance(o, ASTNode)) if x is not node)
+                        return node
+                    if cnt2[0] > k + 1:
+                        later2.append(node)
+                    return None
+
+                try:
+                    query_traversal(tree2, cb3)
+                    res.count('self_replacements')
+                    if any(id(x) in below2 for x in later2):
+                        res.violation(f'walks-below-a-node-returned-as-itself|{slot(root, p)}', f'{text!r}: the visitor returned the node at {reflect.path_str(p)} itself and was still called for nodes below it')
+                    elif reflect.fingerprint(tree2) != before:
+                        res.violation(f'self-replacement-changes-tree|{slot(root, p)}', f'{text!r}: returning the node at {reflect.path_str(p)} itself changed the tree')
+                except Exception as e:
+                    res.violation(f'replace-crash|{slot(root, p)}|{exc_sig(e)}', f'{text!r}: returning the node at {reflect.path_str(p)} itself raised {e!r}')
             try:
                 ats = [reflect.get_at(tree, q) for q in aliases]
             except Exception:
@@ -328,7 +358,7 @@ class CHECK(Check):
     def coverage(self, agg):
         return {'exhaustive': True, 'slots_exercised': sorted(agg['cover'].get('slots', ())),
                 'rule': 'every accepted S0 sentence (edge + production-pair + production-triple cover, 3 dialects) rooted in a query/DML/CREATE TABLE statement, numbered lexemes, '
-                        '+ 14 hand-kept shapes; for each tree one observing traversal and one replacing traversal per visited node; '
+                        '+ 14 hand-kept shapes; for each tree one observing traversal and one replacing traversal per visited node (plus one in which the visitor returns the node itself, for nodes with children; the visitor must not be called below a returned node); '
                         'distinct_nontrivial = distinct tree fingerprints'}
 
     def describe_case(self, case):
